@@ -111,7 +111,7 @@ def fn_table(ctx):
 
 
 def run(ctx):
-    ctx.rule = ("(a) fixed tree-shape probes; (b) the 15 functions at ~40 points each; (c) random well-formed "
+    ctx.rule = ("(a) fixed tree-shape probes and left-to-right additive chains in which two integers above 2**53 cancel before a fraction is added; (b) the 15 functions at ~40 points each; (c) random well-formed "
                 "expressions of result kind int/float/complex to nesting depth 8 (quick) / 14 (thorough) over "
                 "literals in every lexical form, declared scalars and array elements, kept inside the property's "
                 "domain by an independent Python evaluation (finite, |v| < 1e12, real function domains, no result "
@@ -125,6 +125,29 @@ def run(ctx):
             ctx.violation("probe %s: %s" % (t, msg),
                           {"kind": "expr", "text": t, "want": [w.real, w.imag] if isinstance(w, complex) else w,
                            "want_int": isinstance(w, int)})
+    # additive chains are evaluated left to right: two large integers (exact, inside int64) that nearly cancel,
+    # then a fraction - summing the chain in floating point in any other order loses the difference
+    for _ in range(ctx.n(60, 600)):
+        a = ctx.rng.randrange(2 ** 53, 2 ** 62)
+        d = ctx.rng.randrange(1, 9)
+        f = ctx.rng.choice([0.5, 0.25, 1.5, 0.125])
+        form = ctx.rng.randrange(4)
+        if form == 0:
+            t, w, decls = "%d - %d + %r" % (a, a - d, f), d + f, ""
+        elif form == 1:
+            t, w, decls = "%d - %d + %r - 1" % (a + d, a, f), d + f - 1, ""
+        elif form == 2:
+            t, w, decls = "n - A[0] + %r - 1" % f, d + f - 1, "int n = %d\nint array A =\n    %d, 1\n" % (a + d, a)
+        else:
+            t, w, decls = "-%d + %d + %r" % (a, a + d, f), d + f, ""
+        ctx.case("cancel:" + t + decls)
+        ctx.count("large-integers-cancel-before-a-fraction")
+        msg = o_expr(t, w, decls)
+        if msg:
+            ctx.violation("additive chain %s: %s" % (t, msg), {"kind": "expr", "text": t, "want": w, "decls": decls})
+    # index expressions between and after two declarations of one array, redeclared scalars (interaction stream;
+    # the executable model is the oracle)
+    common.interaction_stream(ctx, ctx.n(150, 2000))
     fn_table(ctx)
     n = ctx.n(2500, 60000)
     maxd = ctx.n(8, 14)
